@@ -5,8 +5,10 @@ import (
 	"fmt"
 	"os"
 	"path/filepath"
+	"runtime"
 	"sort"
 	"strings"
+	"time"
 
 	"github.com/Comcast/sheens/core"
 	"github.com/Comcast/sheens/crew"
@@ -94,13 +96,19 @@ func scratchDir() string {
 type svcOp struct {
 	K  string `json:"k"` // add | rem | inc | bcast | poison | down | up | read
 	Id string `json:"id,omitempty"`
+	// Dead: the request arrives with a context that has already ended (a client that went away)
+	Dead bool `json:"dead,omitempty"`
 }
 
 func (o svcOp) String() string {
+	s := o.K
 	if o.Id != "" {
-		return o.K + "(" + o.Id + ")"
+		s = o.K + "(" + o.Id + ")"
 	}
-	return o.K
+	if o.Dead {
+		s += "[context ended]"
+	}
+	return s
 }
 
 type svcEnv struct {
@@ -299,7 +307,21 @@ func c16Seq(c *vh.Ctx, dir string, cs c16SeqCase) {
 		before := snap.Of(e.s.crew.Machines)
 		memBefore := e.memory()
 		var res string
-		if p, pm, where := vh.Trap(func() { res = e.do(ctx, op) }); p {
+		opctx := ctx
+		goroutines := runtime.NumGoroutine()
+		if op.Dead {
+			dctx, dcancel := context.WithCancel(ctx)
+			dcancel()
+			opctx = dctx
+		}
+		p, pm, where := vh.Trap(func() { res = e.do(opctx, op) })
+		if op.Dead {
+			// whatever the service started for the request has time to finish before the crew is judged
+			for w := 0; w < 3000 && runtime.NumGoroutine() > goroutines; w++ {
+				time.Sleep(time.Millisecond)
+			}
+		}
+		if p {
 			c.Violation("C16/panic/"+op.K+"/"+where, fmt.Sprintf("ops %v: %s panicked: %s", cs.Ops[:i+1], op, pm), cs)
 			return
 		}
@@ -485,7 +507,7 @@ func C16(c *vh.Ctx) {
 	maxLen := c.Pick(4, 5)
 	alphabet := []svcOp{{K: "add", Id: "m1"}, {K: "add", Id: "m2"}, {K: "add", Id: ""}, {K: "rem", Id: "m1"}, {K: "rem", Id: "ghost"}, {K: "inc", Id: "m1"}, {K: "bcast"}, {K: "poison", Id: "m1"}, {K: "half"}, {K: "down"}, {K: "up"}, {K: "failnext"}, {K: "failcommit"}}
 	c.Bound("fault_sequence_max", maxLen)
-	c.Rule("(sequential fault sequences) every operation sequence up to the bound over {add m1, add m2, add \"\", remove m1, remove a machine that does not exist, process->m1, process broadcast, process a message that makes m1's bindings unserialisable, a broadcast that only some machines of the batch survive (the others end with a value that cannot be stored), store stops working, store works again, the next write transaction fails before it starts, the next write transaction fails at commit} on a real Service over a real bolt file (tmpfs); after every operation the in-memory crew must equal the stored crew (read back through a second handle while the store is down), and an operation that failed must not have changed the crew. (schedules) 2-3 client threads issuing process / add / remove / read-crew with yield points inside the machine's action and at the shimmed crew lock, store healthy or failing, every schedule within the deviation bound; the per-operation results and the final (memory, store) must equal those of some sequential order of the operations (the service itself, run sequentially, is the reference), and memory must equal the store. states = sequences + scenarios, transitions = operations + scheduler steps.")
+	c.Rule("(sequential fault sequences) every operation sequence up to the bound over {add m1, add m2, add \"\", remove m1, remove a machine that does not exist, process->m1, process broadcast, process a message that makes m1's bindings unserialisable, a broadcast that only some machines of the batch survive (the others end with a value that cannot be stored), store stops working, store works again, the next write transaction fails before it starts, the next write transaction fails at commit} on a real Service over a real bolt file (tmpfs); after every operation the in-memory crew must equal the stored crew (read back through a second handle while the store is down), and an operation that failed must not have changed the crew; also sequences of up to three operations in which add / remove / process requests arrive with a context that has already ended. (schedules) 2-3 client threads issuing process / add / remove / read-crew with yield points inside the machine's action and at the shimmed crew lock, store healthy or failing, every schedule within the deviation bound; the per-operation results and the final (memory, store) must equal those of some sequential order of the operations (the service itself, run sequentially, is the reference), and memory must equal the store. states = sequences + scenarios, transitions = operations + scheduler steps.")
 	var idx uint64
 	var rec func(cur []svcOp)
 	rec = func(cur []svcOp) {
@@ -506,6 +528,30 @@ func C16(c *vh.Ctx) {
 		}
 	}
 	rec(nil)
+	// requests whose context has already ended (a client that went away): whatever the service makes of them,
+	// memory and store move together
+	{
+		dead := []svcOp{{K: "add", Id: "m1"}, {K: "inc", Id: "m1"}, {K: "add", Id: "m1", Dead: true}, {K: "add", Id: "m2", Dead: true}, {K: "rem", Id: "m1", Dead: true}, {K: "inc", Id: "m1", Dead: true}, {K: "bcast", Dead: true}, {K: "failnext"}}
+		var recDead func(cur []svcOp)
+		recDead = func(cur []svcOp) {
+			if len(cur) > 0 && cur[len(cur)-1].Dead {
+				idx++
+				if c.Mine(idx) && !c.Expired() {
+					c.R.States++
+					c.R.Transitions += int64(len(cur))
+					c16Seq(c, dir, c16SeqCase{Ops: append([]svcOp{}, cur...)})
+					c.Count("sequences_with_ended_contexts", 1)
+				}
+			}
+			if len(cur) == 3 {
+				return
+			}
+			for _, o := range dead {
+				recDead(append(cur, o))
+			}
+		}
+		recDead(nil)
+	}
 	for i, sc := range c16Scenarios(!c.Quick()) {
 		if c.Expired() {
 			return
